@@ -161,6 +161,15 @@ def runOps : Option Ring → List String → List String
   | _, [] => []
   | none, _ :: ls => "dead" :: runOps none ls
   | some r, l :: ls =>
+    match toks l with
+    | ["init", c] =>                              -- `r.Init(c)` on the existing ring: clears it
+      match c.toInt? with
+      | none => "bad-op" :: runOps (some r) ls
+      | some c =>
+        match Ring.init? c with
+        | none => "panic" :: runOps none ls
+        | some r' => "ok" :: runOps (some r') ls
+    | _ =>
     match parseOp (toks l) with
     | none => "bad-op" :: runOps (some r) ls
     | some op =>
